@@ -159,7 +159,14 @@ def c_cfg(cfg):
 
 def impl_allowed(repo, name, codename="c"):
     md = next(iter(repo.release_files_per_metadata))
-    return bool(repo._metadata_file_allowed(md, Path(name)))
+    f = getattr(repo, "_metadata_file_allowed", None)
+    if f is None:   # a renamed private method: the one method of the repository that says "allowed" about a file
+        names = [n for n in dir(repo) if "allowed" in n and callable(getattr(repo, n, None))
+                 and ("file" in n or "metadata" in n or "path" in n)]
+        if len(names) != 1:
+            raise AttributeError("no _metadata_file_allowed and no unique replacement: %r" % names)
+        f = getattr(repo, names[0])
+    return bool(f(md, Path(name)))
 
 
 # ------------------------------------------------------------------ select tie
@@ -248,7 +255,8 @@ def gen_release(rng, names, byhash=None):
         sizes[n] = rng.choice([0, -1, 5, 10, 300, 4096]) if rng.random() < 0.9 else rng.choice(["x", "1x"])
         for t in order:
             if rng.random() < 0.85:
-                entries.append((t, "%s%08x" % (t[:2].lower(), rng.getrandbits(32)), sizes[n], n))
+                # upper- and lower-case hex digests: the by-hash name is the digest as the Release spells it
+                entries.append((t, ("%s%08x" if rng.random() < 0.6 else "%s%08X") % (t[:2].lower(), rng.getrandbits(32)), sizes[n], n))
     rng.shuffle(entries)
     return {"byhash": rng.random() < 0.5 if byhash is None else byhash, "explicit_no": rng.random() < 0.4,
             "order": order, "entries": entries}
